@@ -276,14 +276,6 @@ def main(argv):
                      and match_known(load_known(), pid, {"obligation": o["name"]}) is None]
             if names:
                 retry[rep["function"]] = set(names)
-        elif rep["status"] == "ok":
-            # changed code: obligations the quick budget left open get the large budget too, so that they end as proved or
-            # refuted rather than undecided (a refutation still has to be replayed on the real code afterwards)
-            names = [o.get("uid", o["name"]) for o in rep["obligations"] if o["result"] not in ("proved", "refuted")
-                     and match_known(load_known(), pid, {"obligation": o["name"]}) is None]
-            if names and len(names) <= 12:
-                retry[rep["function"]] = set(names)
-                changed_fns.add(rep["function"])
     if retry:
         os.environ["PYVC_QUICK_MS"] = "60000"
         os.environ["PYVC_OB_BUDGET_S"] = "400"
